@@ -72,8 +72,8 @@ def lower_intrinsic_mutual_information(dist, rvs, crvs, rv_mode=None):
     lb : float
         A lower-bound on the secret key agreement rate.
     """
-    a = lower_intrinsic_mutual_information_directed(dist, rvs[0], rvs[1], crvs, rv_mode=None)
-    b = lower_intrinsic_mutual_information_directed(dist, rvs[1], rvs[0], crvs, rv_mode=None)
+    a = lower_intrinsic_mutual_information_directed(dist, rvs[0], rvs[1], crvs, rv_mode=rv_mode)
+    b = lower_intrinsic_mutual_information_directed(dist, rvs[1], rvs[0], crvs, rv_mode=rv_mode)
     return max([a, b])
 
 
